@@ -36,6 +36,7 @@ type StoreRec struct {
 
 type PutInfo struct {
 	Len, ID int
+	Op      trace.F // a declared call other than Put (its Op event is emitted right before its first store)
 	started bool
 }
 
@@ -50,7 +51,9 @@ type World struct {
 	threads map[int64]string
 	puts    map[int64]*PutInfo
 	Gate    func(thread, label string) // optional scheduler gate, called before a data store
-	fresh   map[string]*freshMeta
+	// GateGroups: the gate is also called before every store into a consumer-group meta page
+	GateGroups bool
+	fresh      map[string]*freshMeta
 	// OnStore is called (under the world lock) after every logged store, with its index in Log
 	OnStore func(k int)
 	// FailAcquire, when set, makes the acquisition of a page that does not exist yet fail (fault injection:
@@ -88,6 +91,22 @@ func (w *World) BindThread(name string) {
 func (w *World) CurrentPut(length, id int) {
 	w.mu.Lock()
 	w.puts[gid()] = &PutInfo{Len: length, ID: id}
+	w.mu.Unlock()
+}
+
+// CurrentOp declares the call the calling goroutine is about to make (consumer-group calls of concurrent
+// histories): the Op event is emitted right before the first store of the call, i.e. inside its critical section.
+func (w *World) CurrentOp(op trace.F) {
+	w.mu.Lock()
+	w.puts[gid()] = &PutInfo{Op: op}
+	w.mu.Unlock()
+}
+
+// FinishOp ends the declared call; a call that made no store is announced now.
+func (w *World) FinishOp() {
+	w.mu.Lock()
+	w.emitPutStartLocked()
+	delete(w.puts, gid())
 	w.mu.Unlock()
 }
 
@@ -274,6 +293,14 @@ func (w *World) emitPutStartLocked() {
 	g := gid()
 	if pi, ok := w.puts[g]; ok && !pi.started {
 		pi.started = true
+		if pi.Op != nil {
+			f := trace.F{"t": w.thread()}
+			for k, v := range pi.Op {
+				f[k] = v
+			}
+			w.Rec.Emit("Op", f)
+			return
+		}
 		w.Rec.Emit("Op", trace.F{"t": w.thread(), "op": "Put", "len": pi.Len, "id": pi.ID})
 	}
 }
@@ -344,6 +371,19 @@ func le64(v uint64) []byte {
 }
 
 func (p *mpage) PutUint64(value uint64, offset int) {
+	if w := p.f.w; p.f.kind == "cg" && w.GateGroups && w.Gate != nil {
+		w.mu.Lock()
+		t := w.thread()
+		w.mu.Unlock()
+		w.Gate(t, "group-store")
+	}
+	if w := p.f.w; p.f.kind == "cg" {
+		w.mu.Lock()
+		if w.Suppress == 0 {
+			w.emitPutStartLocked()
+		}
+		w.mu.Unlock()
+	}
 	p.MappedPage.PutUint64(value, offset)
 	p.store(offset, le64(value), func() (string, trace.F) {
 		v := int64(value)
